@@ -437,8 +437,14 @@ Proof. intros ap f v l s Hf. simpl. rewrite Hf. rewrite val_list_list_val. refle
 Lemma div_ref : forall ap a b s, (b =? 0) = false ->
   prim_apply ap PDiv [VInt a; VInt b] s =
   if Z.rem a b =? 0 then (Done (VInt (wrap64 (Z.quot a b))), s)
-  else (Done (VFlt (fst (fdiv_z a b)) (snd (fdiv_z a b))), s).
-Proof. intros ap a b s Hb. simpl. rewrite Hb. destruct (Z.rem a b =? 0); reflexivity. Qed.
+  else match flt_of_f64 (fdiv_z a b) with
+       | Some me => (Done (VFlt (fst me) (snd me)), s)
+       | None => (Sig (SErr EUnspec), s)
+       end.
+Proof.
+  intros ap a b s Hb. simpl. rewrite Hb. destruct (Z.rem a b =? 0); [reflexivity|].
+  destruct (flt_of_f64 _); reflexivity.
+Qed.
 
 Lemma div_exact_ref : forall ap a b s, (b =? 0) = false -> Z.rem a b = 0 ->
   prim_apply ap PDiv [VInt a; VInt b] s = (Done (VInt (wrap64 (Z.quot a b))), s).
@@ -448,7 +454,7 @@ Lemma div_inexact_not_int_ref : forall ap a b s z, (b =? 0) = false -> Z.rem a b
   fst (prim_apply ap PDiv [VInt a; VInt b] s) <> Done (VInt z).
 Proof.
   intros ap a b s z Hb Hr. simpl. rewrite Hb. destruct (Z.rem a b =? 0) eqn:E; [apply Z.eqb_eq in E; contradiction|].
-  simpl. discriminate.
+  destruct (flt_of_f64 _); simpl; discriminate.
 Qed.
 
 (* concat / append on a string: characters are appended as their UTF-8 encoding *)
@@ -909,7 +915,8 @@ Section PresOpen.
   Proof.
     induction r as [|b r IH]; simpl; intros acc; [apply pres_ret|].
     destruct acc; try apply pres_raise. destruct b; try apply pres_raise.
-    destruct (_ =? 0); [apply pres_raise|]. destruct (_ =? 0); apply IH.
+    destruct (_ =? 0); [apply pres_raise|]. destruct (_ =? 0); [apply IH|].
+    destruct (flt_of_f64 _); [apply IH|apply pres_raise].
   Qed.
 
   Lemma pres_compare_prim : forall test args, pres (compare_prim test args).
@@ -1384,7 +1391,8 @@ Section NonInterference.
     Proof.
       induction r as [|b r IH]; simpl; intros acc Ha; [apply ni_ret; assumption|].
       destruct acc; try apply ni_raise. destruct b; try apply ni_raise.
-      destruct (_ =? 0); [apply ni_raise|]. destruct (_ =? 0); apply IH; exact I.
+      destruct (_ =? 0); [apply ni_raise|]. destruct (_ =? 0); [apply IH; exact I|].
+      destruct (flt_of_f64 _); [apply IH; exact I|apply ni_raise].
     Qed.
 
     Lemma ni_compare_prim : forall test args, ni val_ok (compare_prim test args).
@@ -1958,7 +1966,8 @@ Proof.
   assert (Hdiv : forall r acc, quiet (divide acc r)).
   { induction r as [|b r IH]; simpl; intros acc; [apply quiet_ret|].
     destruct acc; try apply quiet_raise. destruct b; try apply quiet_raise.
-    destruct (_ =? 0); [apply quiet_raise|]. destruct (_ =? 0); apply IH. }
+    destruct (_ =? 0); [apply quiet_raise|]. destruct (_ =? 0); [apply IH|].
+    destruct (flt_of_f64 _); [apply IH|apply quiet_raise]. }
   assert (Hcmp : forall test a, quiet (compare_prim test a)).
   { intros test a. unfold compare_prim. destruct a as [|x [|y [|? ?]]]; try apply quiet_raise.
     apply quiet_state. intros s. destruct (cmp_val _ _ _ _); split; intros; discriminate. }
